@@ -6,6 +6,7 @@ import ast
 from ..flow import call_name, dotted, norm, writes_in
 from ..index import AnalysisError, ClassInfo, walk_local
 from ..lib import cfg_of, defs_of, edge_leads_only_to_raise, live, nodes_with, undominated, witness
+from .. import shape
 
 PQ = "pint.facets.plain.quantity"
 PU = "pint.facets.plain.unit"
@@ -42,6 +43,43 @@ def _init_assignments(init):
     return params, out
 
 
+def _is(pattern: str, e: ast.AST, fn: ast.AST = None) -> bool:
+    """`e` matches the pattern (shape.match syntax) as written or, inside `fn`, after resolving local temporaries"""
+    if shape.match(pattern, e) is not None:
+        return True
+    return fn is not None and shape.match(pattern, shape.resolve(e, fn)) is not None
+
+
+def _returned(fi) -> list:
+    """the values a function returns, local temporaries resolved"""
+    return [shape.resolve(r.value, fi.node) for r in shape.returns_of(fi.node)]
+
+
+def _param(fi, i: int, default: str) -> str:
+    a = fi.node.args.args
+    return a[i].arg if len(a) > i else default
+
+
+def _fields_from_state(fi) -> list:
+    """For `__setstate__(self, state)`: the attributes of self that receive state[0], state[1], ... in that order, whether
+    they are unpacked directly (`self.a, self.b = state`) or through locals (`a, b = state; self.a = a`)."""
+    fn, state = fi.node, _param(fi, 1, "state")
+    got = {}
+    for a in walk_local(fn):
+        if not isinstance(a, ast.Assign):
+            continue
+        for t in a.targets:
+            if isinstance(t, (ast.Tuple, ast.List)) and shape.rnorm(a.value, fn) == state:
+                for i, e in enumerate(t.elts):
+                    if isinstance(e, ast.Attribute) and dotted(e.value) == "self":
+                        got[i] = norm(e)
+            elif isinstance(t, ast.Attribute) and dotted(t.value) == "self":
+                m = shape.match(f"{state}[_I]", shape.resolve(a.value, fn))
+                if m is not None and m["_I"].isdigit():
+                    got[int(m["_I"])] = norm(t)
+    return [got.get(i, "?") for i in range(max(got) + 1)] if got else []
+
+
 def run(ck, ix, tier):
     ck.rule("G-PROV", "serialised fields are exactly the constructor's fields, in order")
     # ------------------------------------------------------------ (a) exceptions
@@ -61,12 +99,13 @@ def run(ck, ix, tier):
         ck.analysed(red, init)
         key = f"reduce-roundtrip|{ci.qualname}"
         params, assigned = _init_assignments(init)
-        rets = [r for r in walk_local(red.node) if isinstance(r, ast.Return) and isinstance(r.value, ast.Tuple)]
+        rets = [v for v in (shape.unalias(r.value, red.node) for r in shape.returns_of(red.node)) if isinstance(v, ast.Tuple)]
         if not rets:
             raise AnalysisError(f"{ci.name}.__reduce__: unrecognised shape")
-        tup = rets[0].value
+        tup = rets[0]
         ck.check(norm(tup.elts[0]) == "self.__class__", "G-PROV", key + "|class", red.loc(), "reduces to its own class", f"{ci.name}.__reduce__ reconstructs `{norm(tup.elts[0])}` instead of self.__class__")
-        args = tup.elts[1].elts if isinstance(tup.elts[1], ast.Tuple) else []
+        targs = shape.unalias(tup.elts[1], red.node)
+        args = targs.elts if isinstance(targs, ast.Tuple) else []
         want = [f"self.{assigned.get(p, '?')}" for p in params]
         got = [norm(a) for a in args]
         ck.check(got == want, "G-PROV", key + "|fields", red.loc(), f"reduce args {got}",
@@ -94,14 +133,14 @@ def run(ck, ix, tier):
     for cn, (hook, fields, mod) in hooks.items():
         f = ix.func(mod, f"{cn}.__reduce__")
         ck.analysed(f)
-        rets = [r for r in walk_local(f.node) if isinstance(r, ast.Return)]
-        v = rets[0].value if rets else None
-        ok = isinstance(v, ast.Tuple) and norm(v.elts[0]) == hook and isinstance(v.elts[1], ast.Tuple) and [norm(e) for e in v.elts[1].elts] in (fields, [fields[0]] + [x.replace("self.magnitude", "self._magnitude") for x in fields[1:]])
+        rets = _returned(f)
+        v = rets[0] if rets else None
+        ok = isinstance(v, ast.Tuple) and len(v.elts) == 2 and norm(v.elts[0]) == hook and isinstance(v.elts[1], ast.Tuple) and [norm(e) for e in v.elts[1].elts] in (fields, [fields[0]] + [x.replace("self.magnitude", "self._magnitude") for x in fields[1:]])
         ck.check(ok, "G-PROV", f"{cn}.__reduce__|hook-and-fields", f.loc(), f"({hook}, {fields})", f"{cn}.__reduce__ returns `{norm(v)}`; expected ({hook}, ({', '.join(fields)}))")
     init = ix.module("pint")
     for hook, attr in (("_unpickle_quantity", "Quantity"), ("_unpickle_unit", "Unit"), ("_unpickle_measurement", "Measurement")):
         f = init.functions.get(hook)
-        ok = f is not None and f"return _unpickle(application_registry.{attr}, *args)" in norm(f.node)
+        ok = f is not None and bool(_returned(f)) and all(shape.match(f"_unpickle(application_registry.{attr}, *{f.node.args.vararg.arg if f.node.args.vararg else 'args'})", v) is not None for v in _returned(f))
         ck.check(ok, "G-PROV", f"{hook}|application-registry-class", f.loc() if f else init.relpath, f"rebuilds with application_registry.{attr}", f"{hook} no longer rebuilds with application_registry.{attr}")
     f = init.functions.get("_unpickle")
     if f is None:
@@ -118,7 +157,8 @@ def run(ck, ix, tier):
     for c in live(cfg, ctor):
         p = undominated(cfg, [c], loop)
         ck.check(bool(loop) and p is None, "G-DOM", "_unpickle|parse-before-construct", f.loc(cfg.nodes[c].ast), "every UnitsContainer argument is walked before the object is constructed", "the object is constructed before its unit names were registered", witness(cfg, p))
-        ck.check(norm(cfg.nodes[c].ast) == "return cls(*args)", "G-PROV", "_unpickle|all-fields-forwarded", f.loc(cfg.nodes[c].ast), "cls(*args)", f"`{cfg.nodes[c].text()}` does not forward all pickled fields")
+        built = [x for x in ast.walk(cfg.nodes[c].ast) if isinstance(x, ast.Call) and isinstance(x.func, ast.Name) and x.func.id == "cls"]
+        ck.check(bool(built) and all(shape.match("cls(*args)", x) is not None for x in built) and any(isinstance(v, ast.Call) and norm(v.func) == "cls" for v in (shape.resolve(r.value, fnode) for r in shape.returns_of(fnode))), "G-PROV", "_unpickle|all-fields-forwarded", f.loc(cfg.nodes[c].ast), "cls(*args)", f"`{cfg.nodes[c].text()}` does not forward all pickled fields")
     is_uc = lambda a_: isinstance(a_, ast.Call) and call_name(a_) == "isinstance" and len(a_.args) == 2 and norm(a_.args[1]) == "UnitsContainer"
     pcalls = [x for x in ast.walk(fnode) if isinstance(x, ast.Call) and call_name(x) == "parse_units"]
     okw = bool(pcalls)
@@ -149,15 +189,20 @@ def run(ck, ix, tier):
     # container state
     uc, ph = ix.cls(U, "UnitsContainer"), ix.cls(U, "ParserHelper")
     g, s = uc.methods["__getstate__"], uc.methods["__setstate__"]
-    gr = [r for r in walk_local(g.node) if isinstance(r, ast.Return)][0]
-    got = [norm(e) for e in gr.value.elts] if isinstance(gr.value, ast.Tuple) else []
-    sa = [a for a in walk_local(s.node) if isinstance(a, ast.Assign) and norm(a.value) == "state"]
-    setf = [norm(e) for e in sa[0].targets[0].elts] if sa and isinstance(sa[0].targets[0], ast.Tuple) else []
+    gv = _returned(g)
+    got = [norm(e) for e in gv[0].elts] if len(gv) == 1 and isinstance(gv[0], ast.Tuple) else []
+    setf = _fields_from_state(s)
     ck.check(got == setf and got == ["self._d", "self._one", "self._non_int_type"], "G-PROV", "UnitsContainer|getstate-setstate-same-fields", g.loc(), f"state = {got}",
              f"__getstate__ returns {got} but __setstate__ unpacks {setf}; the state must be exactly (_d, _one, _non_int_type) in the same order (the memoised hash must not travel: str hashes differ between processes)")
     ck.check(any(isinstance(a, ast.Assign) and norm(a.targets[0]) == "self._hash" and norm(a.value) == "None" for a in walk_local(s.node)), "G-PROV", "UnitsContainer.__setstate__|hash-reset", s.loc(), "hash reset on unpickling", "__setstate__ no longer resets the memoised hash")
+    # ParserHelper: the container's state with the scale appended; unpacked symmetrically (all but the last to the
+    # container, the last to self.scale)
     g2, s2 = ph.methods["__getstate__"], ph.methods["__setstate__"]
-    ck.check("super().__getstate__() + (self.scale,)" in norm(g2.node) and "super().__setstate__(state[:-1])" in norm(s2.node) and "self.scale = state[-1]" in norm(s2.node), "G-PROV", "ParserHelper|state-appends-scale", g2.loc(), "container state + scale, unpacked symmetrically", "ParserHelper state no longer appends/strips the scale symmetrically")
+    st2 = _param(s2, 1, "state")
+    appended = [v for v in _returned(g2) if shape.match("super().__getstate__() + (self.scale,)", v) is not None or shape.match("(*super().__getstate__(), self.scale)", v) is not None]
+    stripped = [c for c in walk_local(s2.node) if isinstance(c, ast.Call) and shape.match("super().__setstate__(_X)", c) is not None and len(c.args) == 1 and _is(f"{st2}[:-1]", c.args[0], s2.node)]
+    scale = [a for a in walk_local(s2.node) if isinstance(a, ast.Assign) and norm(a.targets[0]) == "self.scale" and _is(f"{st2}[-1]", a.value, s2.node)]
+    ck.check(bool(appended) and len(appended) == len(_returned(g2)) and bool(stripped) and bool(scale), "G-PROV", "ParserHelper|state-appends-scale", g2.loc(), "container state + scale, unpacked symmetrically", "ParserHelper state no longer appends/strips the scale symmetrically")
     # copy hooks
     f = ix.func(PQ, "PlainQuantity.__copy__")
     from .. import shape as _shk
@@ -168,12 +213,17 @@ def run(ck, ix, tier):
     f = ix.func(PQ, "PlainQuantity.__deepcopy__")
     ck.check(built(f) == ["self.__class__(copy.deepcopy(self._magnitude, memo), copy.deepcopy(self._units, memo))"], "G-TAG", "PlainQuantity.__deepcopy__|deep-copies-both-fields", f.loc(), "deep copies of magnitude and units", "Quantity.__deepcopy__ no longer deep-copies magnitude and units")
     f = ix.func(PU, "PlainUnit.__copy__")
-    ck.check("self.__class__(self._units)" in norm(f.node), "G-TAG", "PlainUnit.__copy__|same-units", f.loc(), "same units", "Unit.__copy__ no longer rebuilds from the same units")
+    ck.check(built(f) == ["self.__class__(self._units)"], "G-TAG", "PlainUnit.__copy__|same-units", f.loc(), "same units", "Unit.__copy__ no longer rebuilds from the same units")
     f = ix.func(PU, "PlainUnit.__deepcopy__")
-    ck.check("self.__class__(copy.deepcopy(self._units, memo))" in norm(f.node), "G-TAG", "PlainUnit.__deepcopy__|deep-copies-units", f.loc(), "deep copy of the units", "Unit.__deepcopy__ no longer deep-copies the units")
+    ck.check(built(f) == ["self.__class__(copy.deepcopy(self._units, memo))"], "G-TAG", "PlainUnit.__deepcopy__|deep-copies-units", f.loc(), "deep copy of the units", "Unit.__deepcopy__ no longer deep-copies the units")
     # tuple form
     tt, ft = ix.func(PQ, "PlainQuantity.to_tuple"), ix.func(PQ, "PlainQuantity.from_tuple")
-    ck.check("return (self.m, tuple(self._units.items()))" in norm(tt.node) and "cls(tup[0], cls._REGISTRY.UnitsContainer(tup[1]))" in norm(ft.node), "G-PROV", "to_tuple/from_tuple|field-by-field-inverse", tt.loc(), "(magnitude, unit items) <-> cls(tup[0], UnitsContainer(tup[1]))", "from_tuple no longer inverts to_tuple field by field")
+    tup_ = _param(ft, 1, "tup")
+    fwd = _returned(tt)
+    okt = bool(fwd) and all(any(shape.match(f"(self.{m_}, tuple(self._units.items()))", v) is not None for m_ in ("m", "magnitude", "_magnitude")) for v in fwd)
+    back = _returned(ft)
+    okf = bool(back) and all(shape.match(f"cls({tup_}[0], cls._REGISTRY.UnitsContainer({tup_}[1]))", v) is not None for v in back)
+    ck.check(okt and okf, "G-PROV", "to_tuple/from_tuple|field-by-field-inverse", tt.loc(), "(magnitude, unit items) <-> cls(tup[0], UnitsContainer(tup[1]))", "from_tuple no longer inverts to_tuple field by field")
 
     # ------------------------------------------------------------ (c) registry identity
     chk = ix.func(U, "SharedRegistryObject._check")
@@ -227,16 +277,23 @@ def run(ck, ix, tier):
     ck.analysed(f)
     cfg = cfg_of(f)
     src = norm(f.node)
-    memo = nodes_with(cfg, lambda x: isinstance(x, ast.Assign) and norm(x.targets[0]) == "memo[id(self)]")
+    # by role: NEW is whatever is bound to a bare instance `object.__new__(type(self))`; it is entered in the memo (2nd
+    # parameter) under id(self) before any state is copied, receives a deep copy of self.__dict__, has its dynamic classes
+    # re-created on every path, and is what is returned
+    fn, memo_ = f.node, _param(f, 1, "memo")
+    is_new = lambda e: _is("object.__new__(type(self))", e, fn) or _is("object.__new__(self.__class__)", e, fn)
+    memo = nodes_with(cfg, lambda x: isinstance(x, ast.Assign) and norm(x.targets[0]) == f"{memo_}[id(self)]" and is_new(x.value))
     dcopy = nodes_with(cfg, lambda x: isinstance(x, ast.Call) and call_name(x) == "deepcopy")
     ck.check(bool(memo), "G-EXH", "registry-deepcopy|copy-entered-in-memo", f.loc(), "the copy is entered in the deepcopy memo", "the registry copy is not entered in the memo: objects referring back to the registry (formatters) end up with a second shadow registry")
     for d in live(cfg, dcopy):
         p = undominated(cfg, [d], memo)
         ck.check(bool(memo) and p is None, "G-EXH", "registry-deepcopy|memo-before-copying-state", f.loc(cfg.nodes[d].ast), "memo entry precedes the copy of the state", "the state is deep-copied before the copy is entered in the memo", witness(cfg, p))
-    init_dyn = nodes_with(cfg, lambda x: isinstance(x, ast.Call) and call_name(x) == "_init_dynamic_classes" and dotted(x.func.value) == "new")
+    init_dyn = nodes_with(cfg, lambda x: isinstance(x, ast.Call) and call_name(x) == "_init_dynamic_classes" and isinstance(x.func, ast.Attribute) and is_new(x.func.value))
     p = cfg.all_paths_pass(cfg.entry, [cfg.exit], init_dyn)
     ck.check(bool(init_dyn) and p is None, "G-EXH", "registry-deepcopy|dynamic-classes-recreated", f.loc(), "dynamic classes are re-created for the copy", "the copy keeps the source registry's Quantity/Unit classes (its objects would belong to the source)", witness(cfg, p))
-    ck.check("new = object.__new__(type(self))" in src and "copy.deepcopy(self.__dict__, memo)" in src, "G-EXH", "registry-deepcopy|state-deep-copied", f.loc(), "whole state deep-copied", "the registry state is no longer deep-copied")
+    state = [a_ for a_ in walk_local(fn) if isinstance(a_, ast.Assign) and isinstance(a_.targets[0], ast.Attribute) and a_.targets[0].attr == "__dict__" and is_new(a_.targets[0].value) and _is(f"copy.deepcopy(self.__dict__, {memo_})", a_.value, fn)]
+    rets = shape.returns_of(fn)
+    ck.check(bool(state) and bool(rets) and all(is_new(r.value) for r in rets), "G-EXH", "registry-deepcopy|state-deep-copied", f.loc(), "whole state deep-copied", "the registry state is no longer deep-copied")
     # every facet that creates instance-bearing dynamic classes rebinds the copied instances
     reg = ix.cls("pint.registry", "UnitRegistry")
     for c in ix.mro(reg):
@@ -251,12 +308,40 @@ def run(ck, ix, tier):
             # instances of this class are stored in registry state (e.g. self._groups / self._systems)
             store = {"Group": "_groups", "System": "_systems"}.get(attr)
             dc = c.methods.get("__deepcopy__")
-            ok = dc is not None and store is not None and f"new.{store}.values()" in norm(dc.node) and f".__class__ = new.{attr}" in norm(dc.node) and "super().__deepcopy__(memo)" in norm(dc.node)
+            ok = dc is not None and store is not None
+            if ok:
+                # by role: COPY = super().__deepcopy__(memo) is returned; every element of COPY.<store>.values() gets
+                # its class re-bound to COPY.<attr>
+                dn = dc.node
+                copy_ = f"super().__deepcopy__({_param(dc, 1, 'memo')})"
+                rebinds = []
+                for x in walk_local(dn):
+                    if isinstance(x, ast.Assign) and isinstance(x.targets[0], ast.Attribute) and x.targets[0].attr == "__class__" and isinstance(x.targets[0].value, ast.Name) and _is(f"{copy_}.{attr}", x.value, dn):
+                        var = x.targets[0].value.id
+                        loop = getattr(x, "_parent", None)
+                        while loop is not None and not (isinstance(loop, ast.For) and isinstance(loop.target, ast.Name) and loop.target.id == var):
+                            loop = getattr(loop, "_parent", None)
+                        if loop is not None and _is(f"{copy_}.{store}.values()", loop.iter, dn) and not shape.facts_at(x, loop):
+                            rebinds.append(x)
+                drets = shape.returns_of(dn)
+                ok = bool(rebinds) and bool(drets) and all(_is(copy_, r.value, dn) for r in drets)
             ck.check(ok, "G-EXH", f"registry-deepcopy|instances-rebound|{attr}", (dc or idc).loc(), f"copied {attr} instances are rebound to the copy's {attr} class",
                      f"{c.name} creates the registry-bound class `{attr}` but its deep copy does not rebind the copied instances in `{store}` to new.{attr}: they keep _REGISTRY of the source registry")
     # ------------------------------------------------------------ lazy registry
+    # by role: the method that turns the placeholder into a registry sets self.__class__ = UnitRegistry, then calls
+    # self.__init__ with the stored (args, kwargs) = self.__dict__['params'], then self._after_init()
     lz = ix.cls("pint.registry", "LazyRegistry")
-    li = [m for nme, m in lz.methods.items() if nme.endswith("__init") or nme == "_LazyRegistry__init"]
-    src = norm(lz.node)
-    ck.check("self.__class__ = UnitRegistry" in src and "self.__init__(*args, **kwargs)" in src and "self._after_init()" in src, "G-TWIN", "LazyRegistry|initialises-like-UnitRegistry", lz.module.relpath, "becomes a UnitRegistry: __init__ then _after_init", "LazyRegistry no longer initialises itself as a UnitRegistry followed by _after_init()")
+    oklz = False
+    for mi in lz.methods.values():
+        mn = mi.node
+        become = [a_ for a_ in walk_local(mn) if isinstance(a_, ast.Assign) and norm(a_.targets[0]) == "self.__class__" and norm(a_.value) == "UnitRegistry"]
+        if not become:
+            continue
+        mcfg = cfg_of(mi)
+        inits = [c_ for c_ in walk_local(mn) if isinstance(c_, ast.Call) and _is("self.__init__(*self.__dict__['params'][0], **self.__dict__['params'][1])", c_, mn)]
+        after = [c_ for c_ in walk_local(mn) if isinstance(c_, ast.Call) and shape.match("self._after_init()", c_) is not None]
+        n_become, n_init = [i for a_ in become for i in mcfg.nodes_for_ast(a_)], [i for c_ in inits for i in nodes_with(mcfg, lambda x, c_=c_: x is c_)]
+        n_after = [i for c_ in after for i in nodes_with(mcfg, lambda x, c_=c_: x is c_)]
+        oklz = bool(n_init) and bool(n_after) and undominated(mcfg, n_init, n_become) is None and undominated(mcfg, n_after, n_init) is None and mcfg.all_paths_pass(mcfg.entry, [mcfg.exit], n_after) is None
+    ck.check(oklz, "G-TWIN", "LazyRegistry|initialises-like-UnitRegistry", lz.module.relpath, "becomes a UnitRegistry: __init__ then _after_init", "LazyRegistry no longer initialises itself as a UnitRegistry followed by _after_init()")
     return EXPLANATION
